@@ -51,18 +51,22 @@ class Addr:
                     gmtexpires = args[3]
 
         self.name = name                # "www.example.com"
+        oldip = self.ip
         self.ip = maybe_ip_addr(ip)     # IPV4Address instance, or string
 
         if self.ip == '<error>':
+            self.ip = oldip
             self._expire()
             return
 
+        # a later mapping for the same name replaces the address, so
+        # the old address must stop resolving
+        if oldip is not None and oldip != self.ip:
+            if self.map.addr.get(str(oldip), None) is self:
+                del self.map.addr[str(oldip)]
+        self.map.addr[str(self.ip)] = self
+
         fmt = "%Y-%m-%d %H:%M:%S"
-
-        # if we already have expiry times, etc then we want to
-        # properly delay our timeout
-
-        oldexpires = self.expires
 
         if gmtexpires.upper() == 'NEVER':
             # FIXME can I just select a date 100 years in the future instead?
@@ -71,24 +75,28 @@ class Addr:
             self.expires = datetime.datetime.strptime(gmtexpires, fmt)
         self.created = datetime.datetime.utcnow()
 
+        # the latest mapping decides when (whether) we expire: drop
+        # any timer for the previous one and start afresh
+        if self.expiry is not None and self.expiry.active():
+            self.expiry.cancel()
+        self.expiry = None
         if self.expires is not None:
-            if oldexpires is None:
-                if self.expires <= self.created:
-                    diff = datetime.timedelta(seconds=0)
-                else:
-                    diff = self.expires - self.created
-                self.expiry = self.map.scheduler.callLater(diff.seconds,
-                                                           self._expire)
-
+            if self.expires <= self.created:
+                delay = 0
             else:
-                diff = self.expires - oldexpires
-                self.expiry.delay(diff.seconds)
+                delay = (self.expires - self.created).total_seconds()
+            self.expiry = self.map.scheduler.callLater(delay, self._expire)
 
     def _expire(self):
         """
         callback done via callLater
         """
-        del self.map.addr[self.name]
+        if self.expiry is not None and self.expiry.active():
+            self.expiry.cancel()
+        self.expiry = None
+        # gone under the name and under the address
+        for key in [k for (k, v) in self.map.addr.items() if v is self]:
+            del self.map.addr[key]
         self.map.notify("addrmap_expired", *[self.name], **{})
 
 
@@ -116,6 +124,10 @@ class AddrMap(object):
         params = shlex.split(update)
         if params[0] in self.addr:
             self.addr[params[0]].update(*params)
+
+        elif params[1] == '<error>':
+            # a failed lookup for a name we hold no mapping for
+            return
 
         else:
             a = Addr(self)
